@@ -146,12 +146,13 @@ def _set_value_protocol(col: Collector, rule="C01.R1", only=None, order_rule=Non
             okR, factsR = False, f"registered task is {S.show(ev.term)}"
         elif not (s.under(ev.nid, isref) or s.under(ev.nid, isref2)):
             okR, factsR = False, "register is not under the `value is a reference` test"
+    RF = cfg.refined      # a remembered test result (`is_expr = isinstance(...)`, walrus) is decided per path
     for b in rb:
         for w in Wn:
-            if cfg.path_avoiding(b, w, Rn):
-                okR, factsR = False, "a path from `value is a reference` (true) reaches the write without registering the ExprTask"
-            if cfg.path_avoiding(b, w, EVn):
-                okR, factsR = False, "a path from `value is a reference` (true) writes without evaluating the expression"
+            if (b == cfg.ENTRY or RF.path_avoiding(cfg.ENTRY, b, Rn)) and RF.path_avoiding(b, w, Rn):
+                okR, factsR = False, "a path on which `value is a reference` holds reaches the write without registering the ExprTask"
+            if (b == cfg.ENTRY or RF.path_avoiding(cfg.ENTRY, b, EVn)) and RF.path_avoiding(b, w, EVn):
+                okR, factsR = False, "a path on which `value is a reference` holds writes without evaluating the expression"
     col.add(rule, f"{q}#expression-branch-registers-and-evaluates", okR, s.loc(Rn[0]) if Rn else here,
             "when the value is an expression an ExprTask(ref, value) is registered and the value written is value._get_value()",
             factsR)
